@@ -29,6 +29,8 @@ SIG_FEATS = "sparse-names-collide:features"       # C20-F5
 # ------------------------------------------------------------------ building the real call
 def num(it):
     a, b = it["n"]
+    if it.get("q"):
+        return Fraction(a, b)
     if it.get("f") or b != 1:
         return a / b
     return a
@@ -152,12 +154,22 @@ def run_history(case):
         enc = InteractionsEncoder(build_terms(case))
     except Exception as e:
         return [{"err": type(e).__name__, "msg": str(e)[:200]} for _ in calls]
+    import copy
+    import pickle
+    copiers = {"pickle": lambda e: pickle.loads(pickle.dumps(e)), "deepcopy": copy.deepcopy, "copy": copy.copy}
+    copies = list(case.get("copies") or [])
     pool, outs = {}, []
     with capped_memory():
-        for ns in calls:
+        for i, ns in enumerate(calls):
             try:
+                use = enc
+                cp = copies[i] if i < len(copies) else None
+                if cp:      # this call goes to a COPY of the encoder; "keep": later calls too
+                    use = copiers[cp["op"]](enc)
+                    if cp.get("keep"):
+                        enc = use
                 kw = {n: build_val_obj(v, pool) for n, v in ns}
-                outs.append(canon_out(enc.encode(**kw)))
+                outs.append(canon_out(use.encode(**kw)))
             except Exception as e:
                 outs.append({"err": type(e).__name__, "msg": str(e)[:200]})
     return outs
@@ -167,24 +179,37 @@ def build_terms(case):
     return [t if isinstance(t, str) else num(t) for t in case["terms"]]
 
 
+def _numeric(v):
+    import numbers
+    if isinstance(v, bool):
+        return False
+    if isinstance(v, float):
+        return math.isfinite(v)
+    return isinstance(v, numbers.Rational)
+
+
+def _tyname(v):
+    return "int" if type(v) is int else "float" if isinstance(v, float) else "Fraction" if isinstance(v, Fraction) else type(v).__name__
+
+
 def canon_out(r):
-    """canonical, exact form of what encode returned"""
+    """canonical, exact form of what encode returned ("ty": the Python types of the numbers in it)"""
     from collections.abc import Mapping
     try:
         if isinstance(r, Mapping):
             out = {}
             for k, v in r.items():
-                if not isinstance(k, str) or isinstance(v, bool) or not isinstance(v, (int, float)) or (isinstance(v, float) and not math.isfinite(v)):
+                if not isinstance(k, str) or not _numeric(v):
                     return {"bad": repr(r)[:300]}
                 out[k] = Fraction(v)
-            return {"sparse": out}
+            return {"sparse": out, "ty": sorted(set(_tyname(v) for v in r.values()))}
         if isinstance(r, (list, tuple)):
             vs = []
             for v in r:
-                if isinstance(v, bool) or not isinstance(v, (int, float)) or (isinstance(v, float) and not math.isfinite(v)):
+                if not _numeric(v):
                     return {"bad": repr(r)[:300]}
                 vs.append(Fraction(v))
-            return {"dense": vs}
+            return {"dense": vs, "ty": sorted(set(_tyname(v) for v in r))}
     except Exception as e:      # pragma: no cover
         return {"bad": "uncanonicalisable: %r" % (e,)}
     return {"bad": repr(r)[:300]}
@@ -578,6 +603,8 @@ def py_to_val(x):
             return {"s": str(v)}
         if isinstance(v, int) and not isinstance(v, bool):
             return {"n": [v, 1]}
+        if isinstance(v, Fraction):
+            return {"n": [v.numerator, v.denominator], "q": True}
         a, b = float(v).as_integer_ratio()
         return {"n": [a, b], "f": True, "r": True}
     if x is None:
@@ -703,7 +730,10 @@ class C20(Property):
             "(3,4),(4,3); string values also as str subclasses (coba.primitives.Categorical, a trivial subclass); 45% of the cases are "
             "histories of 2-4 encode() calls on ONE encoder object (same container types with different contents incl. sequences "
             "gaining/losing strings, the SAME list/dict object re-passed after an in-place change, alternating dense/sparse/string "
-            "calls, identical repeats), every call judged on its own; 16% of the cases use arbitrary doubles (products round; tolerance of "
+            "calls, identical repeats), every call judged on its own; 30% of the cases send some calls to a COPY of the encoder made by pickle / copy.deepcopy / copy.copy (before the first call or "
+            "between calls; term lists with several constants or constants only favoured); value pools also include exact big ints "
+            "(2**53+1, primes near 2**31 and 2**62) and Fractions, compared exactly on the dense and the sparse path, with a check that "
+            "exact inputs give exact (non-float) results; 14% of the cases use arbitrary doubles (products round; tolerance of "
             "encode_float_model); 4% run the real LinUCB / LinTS / LinearSyntheticSimulation with random feature lists, contexts and "
             "feature counts and compare the term list they hand to the encoder with learnerTerms / syntheticTerms, and judge every encode "
             "call they make; dense lengths are checked against the binomial formula independently of the values; non-trivial = at least one term and at least 3 expected entries; distinct by canonical JSON of the case")
@@ -813,6 +843,12 @@ class C20(Property):
                 out.append({"n": [p, 1]})
             elif pool == "small":
                 out.append({"n": [rng.choice([0, 1, 1, 2, 2, 3, -1, -2, 5]), 1]})
+            elif pool == "bigint":
+                # exact Python ints beyond double precision (a float detour loses digits)
+                out.append({"n": [rng.choice([2 ** 53 + 1, 3000000019, 2147483647, 2147483629, 4611686018427387847, 2 ** 62 + 135,
+                                              9007199254740993, 3000000007, 3, 2, 7, -(2 ** 53 + 3), 10 ** 17 + 3]), 1]})
+            elif pool == "fractions":
+                out.append({"n": [rng.choice([1, 2, 3, 5, 7, -4, 11, 10 ** 17 + 3, 2 ** 53 + 1]), rng.choice([1, 3, 3, 7, 9, 10, 2 ** 53 - 1])], "q": True})
             elif pool == "floats":
                 # arbitrary doubles: products round; compared at the tolerance of theorem encode_float_model
                 x = rng.choice([0.1, 0.3, 1 / 3, 2.7, 1.1, -0.7, 12.34, 1e-3, 3.14159, 0.0, 7.0, 0.9999999, 123.456, -2.5e-2, 1.7e2])
@@ -942,7 +978,26 @@ class C20(Property):
         self.subclass_strings(rng, case["ns"])
         if rng.chance(0.45 if not focus else 0.6):
             self.add_history(rng, case, tier)
+        if rng.chance(0.3):
+            self.add_copies(rng, case)
         return case
+
+    def add_copies(self, rng, case):
+        """some calls go to a copy of the encoder made through pickle / copy.deepcopy / copy.copy (as when a learner is
+        sent to a worker process); term lists with numeric constants (several, or constants only) are favoured"""
+        n = len(calls_of(case))
+        cps = []
+        for i in range(n):
+            cps.append({"op": rng.choice(["pickle", "pickle", "deepcopy", "copy"]), "keep": rng.chance(0.5)} if rng.chance(0.6 if i == 0 else 0.4) else None)
+        if not any(cps):
+            cps[rng.below(n)] = {"op": rng.choice(["pickle", "deepcopy", "copy"]), "keep": rng.chance(0.5)}
+        case["copies"] = cps
+        ncon = sum(1 for t in case["terms"] if not isinstance(t, str))
+        if ncon == 0 and rng.chance(0.75):
+            for _ in range(rng.choice([1, 1, 2, 3])):
+                case["terms"].insert(0 if rng.chance(0.5) else rng.below(len(case["terms"]) + 1), {"n": [rng.choice([1, 1, 2, 3, -1]), 1]})
+        if rng.chance(0.06):
+            case["terms"] = [t for t in case["terms"] if not isinstance(t, str)] or [{"n": [1, 1]}]
 
     def subclass_strings(self, rng, ns):
         """string values may be str subclasses (coba.primitives.Categorical, a trivial subclass)"""
@@ -1007,7 +1062,8 @@ class C20(Property):
             else:
                 ns = []
                 # keep every product exact: a call with floats only receives small dyadic floats
-                pool = ("floats" if any(it.get("r") for it in all_items({"ns": prev}))
+                pool = ("fractions" if any(it.get("q") for it in all_items({"ns": prev}))
+                        else "floats" if any(it.get("r") for it in all_items({"ns": prev}))
                         else "dyadic" if any(it.get("f") for it in all_items({"ns": prev})) else "primes")
                 for c, v in prev:
                     v2 = self.vary(rng, v, state, pool)
@@ -1046,7 +1102,7 @@ class C20(Property):
             terms.insert(pos, dict(c))
         # namespaces
         call = W(rng, [("dense", 45), ("sparse", 30), ("mixed", 25)])
-        pool = W(rng, [("primes", 60), ("small", 12), ("dyadic", 12), ("floats", 16)])
+        pool = W(rng, [("primes", 46), ("small", 10), ("dyadic", 10), ("floats", 14), ("bigint", 12), ("fractions", 8)])
         if call == "dense":
             kindw = [("dense", 74), ("scalar", 8), ("none", 6), ("empty", 6), ("absent", 5)]
         elif call == "sparse":
@@ -1157,6 +1213,15 @@ class C20(Property):
             {"terms": [{"n": [2, 1]}], "ns": []},
             {"terms": ["xxxa", "aaa"], "ns": [["a", P(2, 3, 5, 7)], ["x", P(11, 13, 17)]]},
             {"terms": ["xxxxaaa"], "ns": [["x", P(2, 3, 5)], ["a", P(7, 11, 13, 17)]]},
+            # copies of the encoder (pickle / deepcopy / copy) and exact big values (seeded round c20c: c-m2, c-m4)
+            {"terms": [one], "ns": [], "copies": [{"op": "copy", "keep": False}]},
+            {"terms": [one, {"n": [2, 1]}, "x"], "ns": [["x", P(2, 3)]], "hist": [[["x", D({"s": "b"}, {"n": [3, 1]})]], [["x", P(5)]]],
+             "copies": [{"op": "pickle", "keep": True}, None, {"op": "deepcopy", "keep": False}]},
+            {"terms": ["xa", {"n": [3, 1]}], "ns": [["x", P(2, 3)], ["a", {"k": "scalar", "v": {"s": "s"}}]], "copies": [{"op": "deepcopy", "keep": True}]},
+            {"terms": ["xa"], "ns": [["x", {"k": "sparse", "wrap": "dict", "v": [[{"s": "p"}, {"n": [3000000019, 1]}]]}], ["a", D({"n": [3000000007, 1]})]]},
+            {"terms": ["xx", "x"], "ns": [["x", D({"n": [2 ** 53 + 1, 1]}, {"s": "t"}, {"n": [4611686018427387847, 1]})]]},
+            {"terms": ["xx", "x"], "ns": [["x", D({"n": [2 ** 53 + 1, 1]}, {"n": [4611686018427387847, 1]})]]},
+            {"terms": ["xa", {"n": [1, 3], "q": True}], "ns": [["x", D({"n": [1, 3], "q": True}, {"n": [10 ** 17 + 3, 7], "q": True})], ["a", {"k": "sparse", "wrap": "dict", "v": [[{"s": "k"}, {"n": [2, 9], "q": True}]]}]]},
             # the callers with their default term lists
             {"caller": {"kind": "linucb", "features": None, "context": P(2, 3), "actions": [P(5, 7), P(11, 13)]}},
             {"caller": {"kind": "linucb", "features": None, "context": {"k": "none"}, "actions": [P(5, 7), P(11, 13)]}},
@@ -1186,10 +1251,15 @@ class C20(Property):
         if "caller" in case:
             return self.evaluate_caller(case, driver)
         calls = calls_of(case)
-        if len(calls) == 1:
+        copies = [c for c in (case.get("copies") or [])][:len(calls)]
+        if len(calls) == 1 and not any(copies):
             return self.evaluate_call(single(case, 0), run_impl(single(case, 0)), driver)
         impls = run_history(case)
+        plain = None      # the same history without copying the encoder (computed when a call on a copy fails)
         out = {"fails": [], "tags": ["hist:%d" % len(calls)], "nontrivial": False, "impl": [], "model": []}
+        for cp in copies:
+            if cp:
+                out["tags"].append("copy:%s%s" % (cp["op"], ":kept" if cp.get("keep") else ""))
         slots = [v.get("obj") for ns in calls for _, v in ns if v.get("obj") is not None]
         if len(set(slots)) < len(slots):
             out["tags"].append("hist:same-object-changed-in-place")
@@ -1200,6 +1270,18 @@ class C20(Property):
             kinds.add("sparse" if Oracle(one).sparse else "dense")
             for f in r["fails"]:
                 f = dict(f)
+                copied = any(copies[:i + 1]) and (bool(copies[i]) or any(c and c.get("keep") for c in copies[:i]))
+                if f["kind"] in ("A", "B") and copied:
+                    if plain is None:
+                        plain = run_history({k: v for k, v in case.items() if k != "copies"})
+                    alone = self.evaluate_call(one, plain[i], driver)
+                    if not any(g["kind"] == f["kind"] for g in alone["fails"]):
+                        f["sig"] = "copy:" + f["sig"]
+                        f["what"] = ("a COPY of the encoder (%s) behaves differently from the encoder it was copied from. "
+                                     % "/".join(sorted(set(c["op"] for c in copies[:i + 1] if c)))) + f["what"]
+                        f["what"] = "call #%d of %d on one encoder: %s" % (i + 1, len(calls), f["what"])
+                        out["fails"].append(f)
+                        continue
                 if f["kind"] in ("A", "B") and i > 0:
                     # does the same call on a fresh encoder with fresh argument objects behave?
                     alone = self.evaluate_call(one, run_impl(one), driver)
@@ -1307,6 +1389,14 @@ class C20(Property):
                 tags.append("sparse:key-collision")
         for f in fails:
             tags.append("B:" + f["sig"])
+        # result types: exact inputs (Python ints / Fractions) must give exact results of the same kind
+        kinds = set("float" if (it.get("f") or (it["n"][1] != 1 and not it.get("q"))) else "Fraction" if it.get("q") else "int"
+                    for it in list(all_items(case)) + [t for t in case["terms"] if not isinstance(t, str)] if "n" in it)
+        if "ty" in impl and "float" not in kinds and "float" in impl["ty"]:
+            fails.append(F("A", "%s returned floats %s although every input is an exact %s: products are no longer exact"
+                           % (show_call(case), fmt_out(impl), "/".join(sorted(kinds)) or "int"), "A:result-type"))
+        if kinds:
+            tags.append("values:" + "+".join(sorted(kinds)))
         size = o.size() if o.in_quantifier else 0
         nontrivial = bool(o.terms) and o.in_quantifier and size >= 3
         model = None
@@ -1374,10 +1464,25 @@ class C20(Property):
                     yield {"caller": dict(c, features=c["features"][:i] + [t[:-1]] + c["features"][i + 1:])}
             return
         calls = calls_of(case)
-        mk = lambda terms, cs: dict({"terms": terms, "ns": cs[0]}, **({"hist": cs[1:]} if len(cs) > 1 else {}))
+        cps = list(case.get("copies") or [])
+        cps += [None] * (len(calls) - len(cps))
+
+        def mk(terms, cs, copies=None):
+            c = dict({"terms": terms, "ns": cs[0]}, **({"hist": cs[1:]} if len(cs) > 1 else {}))
+            copies = cps if copies is None else copies
+            if any(copies[:len(cs)]):
+                c["copies"] = copies[:len(cs)]
+            return c
+        if any(cps):
+            yield mk(case["terms"], calls, [None] * len(calls))
+            for i, cp in enumerate(cps):
+                if cp:
+                    yield mk(case["terms"], calls, cps[:i] + [None] + cps[i + 1:])
+                    if cp["op"] != "copy" or cp.get("keep"):
+                        yield mk(case["terms"], calls, cps[:i] + [{"op": "pickle" if cp["op"] != "copy" else "copy", "keep": False}] + cps[i + 1:])
         if len(calls) > 1:
             for i in range(len(calls) - 1, -1, -1):
-                yield mk(case["terms"], calls[:i] + calls[i + 1:])
+                yield mk(case["terms"], calls[:i] + calls[i + 1:], cps[:i] + cps[i + 1:])
             if any("obj" in v for ns in calls for _, v in ns):
                 yield mk(case["terms"], [[[n, {k: x for k, x in v.items() if k != "obj"}] for n, v in ns] for ns in calls])
         for ci, ns in enumerate(calls):
@@ -1466,9 +1571,23 @@ class C20(Property):
             if w == "hashable":
                 return ("HashableDense(%s)" if v["k"] == "dense" else "HashableSparse(%s)") % p
             return p
+        if any(it.get("q") for one in [{"ns": ns} for ns in calls] for it in all_items(one)) or any((not isinstance(t, str)) and t.get("q") for t in case["terms"]):
+            lines.append("from fractions import Fraction")
+        cps = list(case.get("copies") or [])
+        if any(cps):
+            lines.append("import copy, pickle")
         lines.append("enc = InteractionsEncoder(%r)" % (build_terms(case),))
         seen = {}
         for i, ns in enumerate(calls):
+            cp = cps[i] if i < len(cps) else None
+            target = "enc"
+            if cp:
+                expr = {"pickle": "pickle.loads(pickle.dumps(enc))", "deepcopy": "copy.deepcopy(enc)", "copy": "copy.copy(enc)"}[cp["op"]]
+                if cp.get("keep"):
+                    lines.append("enc = %s   # from here on the copy is used" % expr)
+                else:
+                    lines.append("cpy = %s   # this call goes to a copy" % expr)
+                    target = "cpy"
             args = []
             for n, v in ns:
                 slot = v.get("obj")
@@ -1484,7 +1603,7 @@ class C20(Property):
                     lines.append("%s = %s" % (name, sv(v)))
                     seen[slot] = v["k"]
                 args.append("%s=%s" % (n, name))
-            lines.append("try: print(enc.encode(%s))" % ", ".join(args))
+            lines.append("try: print(%s.encode(%s))" % (target, ", ".join(args)))
             lines.append("except Exception as e: print('raised', repr(e))")
             try:
                 o = Oracle(single(case, i))
